@@ -437,3 +437,166 @@ Proof.
     exists U. split; [done|]. eapply ginv_simple; try done; [|lia].
     intros k' st' Hk'. cbn in Hk'. apply lookup_insert_Some in Hk' as [[<- <-]|[_ Hk']]; [exists st; cbn; auto|eauto].
 Qed.
+
+(* ------------------------------------------------------------------ the initial configuration *)
+Definition no_cids (p : program) : bool :=
+  forallb (fun pr => match form_cids (pr_body pr) with [] => true | _ => false end) (p_procs p) &&
+  forallb (fun fd => match form_cids (fn_body fd) with [] => true | _ => false end) (p_funs p).
+
+Definition U0 (p : program) (x : list nat) : Prop :=
+  exists i pr, p_procs p !! i = Some pr /\
+    (x = [i] \/ exists j, (j < length (pr_providers pr))%nat /\ x = [i; j]).
+
+Lemma funs_ok_of_program p : linear_program p = true -> no_cids p = true -> funs_ok (p_funs p).
+Proof.
+  unfold linear_program, no_cids. intros [_ Hl]%andb_prop [_ Hc]%andb_prop fd Hfd.
+  rewrite forallb_forall in Hl, Hc. specialize (Hl fd Hfd). specialize (Hc fd Hfd). cbn in Hl, Hc.
+  split; [done|]. by destruct (form_cids (fn_body fd)).
+Qed.
+
+Lemma fold_left_inv_in {A B} (P : B -> Prop) (f : B -> A -> B) (l : list A) (b : B) :
+  P b -> (forall b a, In a l -> P b -> P (f b a)) -> P (fold_left f l b).
+Proof.
+  revert b. induction l as [|a l IH]; cbn; [auto|]. intros b Hb Hstep. apply IH.
+  - apply Hstep; auto.
+  - intros b' a' Hin. apply Hstep. auto.
+Qed.
+
+(* the (old, new) pairs of the top-level names: new is [i; j] for the j-th provider of process i *)
+Lemma top_names_spec p on : In on (top_names p) ->
+  exists i pr j, p_procs p !! i = Some pr /\ (j < length (pr_providers pr))%nat /\
+                 name_cids (snd on) = [[i; j]].
+Proof.
+  unfold top_names. intros Hin. apply in_concat in Hin as (l & Hl & Hon).
+  apply elem_of_list_In in Hl, Hon.
+  apply elem_of_lookup_imap in Hl as (i & pr & -> & Hpr).
+  apply elem_of_lookup_imap in Hon as (j & old & -> & Hj).
+  exists i, pr, j. split_and!; [done|by eapply lookup_lt_Some|done].
+Qed.
+
+Lemma close_body_lin p b : lin_form (close_body p b) = lin_form b.
+Proof.
+  unfold close_body. apply (fold_left_inv (fun b' => lin_form b' = lin_form b)); [done|].
+  intros b' [old new] Hb'. by rewrite lin_subst.
+Qed.
+
+Lemma close_body_cids p b x : form_cids b = [] -> x ∈ form_cids (close_body p b) -> U0 p x.
+Proof.
+  intros Hb. unfold close_body. revert x.
+  apply (fold_left_inv_in (fun b' => forall x, x ∈ form_cids b' -> U0 p x)).
+  - intros x Hx. rewrite Hb in Hx. by apply elem_of_nil in Hx.
+  - intros b' [old new] Hin IH x Hx. apply form_cids_subst in Hx as [Hx|Hx]; [auto|].
+    apply top_names_spec in Hin as (i & pr & j & Hpr & Hj & Hc). cbn in Hc. rewrite Hc in Hx.
+    apply elem_of_list_singleton in Hx as ->. exists i, pr. split; [done|]. right. eauto.
+Qed.
+
+Lemma combine_lookup {A B} (l1 : list A) (l2 : list B) i a b :
+  combine l1 l2 !! i = Some (a, b) -> l1 !! i = Some a /\ l2 !! i = Some b.
+Proof.
+  revert l2 i. induction l1 as [|x l1 IH]; intros [|y l2] [|i]; cbn; try done.
+  - by intros [= -> ->].
+  - apply IH.
+Qed.
+
+Definition init_proc_spec (p : program) (q : pid) (pr' : proc) : Prop :=
+  exists i pr, p_procs p !! i = Some pr /\ q = [i] /\
+    pr_provs pr' = map snd (init_provs i (pr_providers pr)) /\
+    pr_body0 pr' = close_body p (pr_body pr) /\
+    pr_next pr' = length (pr_providers pr).
+Definition init_chan_spec (p : program) (k : cid) : Prop :=
+  exists on, In on (top_names p) /\ name_cids (snd on) = [k].
+
+Lemma init_procs_lookup p q pr' : procs (init_config p) !! q = Some pr' -> init_proc_spec p q pr'.
+Proof.
+  unfold init_config. cbn [procs].
+  set (inits := imap (fun i pr => init_provs i (pr_providers pr)) (p_procs p)).
+  set (L := imap (fun i x => (i, x)) (combine (p_procs p) inits)).
+  revert q pr'.
+  apply (fold_left_inv_in (fun m : gmap pid proc => forall q pr', m !! q = Some pr' -> init_proc_spec p q pr')).
+  - intros q pr' H. by rewrite lookup_empty in H.
+  - intros m [i [pr ini]] Hin IH q pr' [[<- <-]|[_ Hq]]%lookup_insert_Some; [|by apply IH].
+    apply elem_of_list_In, elem_of_lookup_imap in Hin as (i' & y & [= <- <-] & Hy).
+    apply combine_lookup in Hy as [Hpr Hini]. unfold inits in Hini. rewrite list_lookup_imap, Hpr in Hini.
+    cbn in Hini. simplify_eq. exists i, pr. split_and!; try done. cbn. unfold init_provs. by rewrite imap_length.
+Qed.
+
+Lemma init_chans_lookup p k : is_Some (chans (init_config p) !! k) -> init_chan_spec p k.
+Proof.
+  unfold init_config. cbn [chans]. revert k.
+  apply (fold_left_inv_in (fun m : gmap cid chan_st => forall k, is_Some (m !! k) -> init_chan_spec p k)).
+  - intros k [x H]. by rewrite lookup_empty in H.
+  - intros m [old new] Hin IH k. cbn. destruct (chan new) as [k0|] eqn:Hn; [|apply IH].
+    intros [x [[<- _]|[_ Hk]]%lookup_insert_Some]; [|apply IH; eauto].
+    exists (old, new). split; [exact Hin|]. unfold name_cids. cbn. by rewrite Hn.
+Qed.
+
+Theorem ginv_init p : linear_program p = true -> no_cids p = true -> ginv (U0 p) (init_config p).
+Proof.
+  intros Hlin Hnc. pose proof Hlin as [Hlp _]%andb_prop. pose proof Hnc as [Hcp _]%andb_prop.
+  rewrite forallb_forall in Hlp, Hcp.
+  constructor.
+  - intros q pr' Hq. apply init_procs_lookup in Hq as (i & pr & Hpr & -> & Hpv & Hbody & Hnext).
+    assert (In pr (p_procs p)) as Hin by (by eapply elem_of_list_In, elem_of_list_lookup_2).
+    specialize (Hlp pr Hin). specialize (Hcp pr Hin). cbn in Hlp, Hcp.
+    destruct (pr_providers pr) as [|x [|y r]] eqn:Hprov; try done. cbn in Hpv.
+    split_and!.
+    + split; [rewrite Hpv; by eauto|]. by rewrite Hbody, close_body_lin.
+    + exists i, pr. auto.
+    + intros k Hk. unfold proc_cids in Hk. rewrite Hpv, Hbody in Hk. apply elem_of_app in Hk as [Hk|Hk].
+      * cbn in Hk. apply elem_of_list_singleton in Hk as ->. exists i, pr. split; [done|]. right.
+        exists 0%nat. rewrite Hprov. cbn. split; [lia|done].
+      * eapply close_body_cids; [|done]. by destruct (form_cids (pr_body pr)).
+  - intros k st m Hk Hb. destruct (init_causal_inv p) as [Hbuf _]. specialize (Hbuf k).
+    unfold buf, bufm in Hbuf. rewrite Hk in Hbuf. congruence.
+  - intros k Hk. apply init_chans_lookup in Hk as (on & Hin & Hc).
+    apply top_names_spec in Hin as (i & pr & j & Hpr & Hj & Hc'). rewrite Hc in Hc'. simplify_eq.
+    exists i, pr. split; [done|]. right. eauto.
+  - intros q pr' n rest Hq Hu. apply init_procs_lookup in Hq as (i & pr & Hpr & -> & _ & _ & ->).
+    destruct Hu as (i' & pr2 & Hpr2 & [Hx|(j & Hj & Hx)]); cbn in Hx; [done|].
+    simplify_eq. done.
+Qed.
+
+(* ------------------------------------------------------------------ the run-level refinement, premise = the residue only *)
+Section residue.
+Context (D : tenv) (F : list fundef) (c0 : config).
+(* the only premise about configurations: the typing residue holds wherever the run goes *)
+Context (Hres : forall tr c, steps Async D F c0 tr c -> tres D c).
+Context (HF : funs_ok F).
+
+Lemma steps_inv_steps_residue c tr c' : steps Async D F c tr c' ->
+  forall U tr0, steps Async D F c0 tr0 c -> ginv U c -> inv_steps D F c c'.
+Proof.
+  induction 1 as [c|c ch c1 tr c2 Hstep _ IH]; intros U tr0 Hreach G; [constructor|].
+  destruct (async_step_run D F c ch c1 Hstep) as [self ->].
+  econstructor; [eapply (ginv_Inv U D); eauto|exact Hstep|].
+  destruct (ginv_step U D F c self c1 G (Hres _ _ Hreach) HF Hstep) as (U' & _ & G').
+  eapply (IH U'); [|exact G']. eapply (steps_snoc Async D F); eauto.
+Qed.
+
+Theorem refines_sax_residue U tr c : ginv U c0 -> steps Async D F c0 tr c ->
+  exists ls, sax_steps F false (α c0) ls (α c) /\ labels c = labels c0 ++ ls.
+Proof.
+  intros G Hrun. apply (refines_sax_run D F). eapply (steps_inv_steps_residue c0 tr c Hrun U []); [constructor|done].
+Qed.
+End residue.
+
+(* for an accepted program of the linear fragment whose source contains no channel constants (true of
+   everything the parser produces): every run of the Async model prints a label sequence that the
+   reference semantics prints from the program's own SAX initial configuration — PROVIDED the typing
+   residue `tres` holds at the configurations the run visits (C01). *)
+Theorem prints_admitted_residue (p : program) :
+  linear_program p = true -> no_cids p = true ->
+  (forall tr c, steps Async (p_types p) (p_funs p) (init_config p) tr c -> tres (p_types p) c) ->
+  forall fuel pick, exists C',
+    sax_steps (p_funs p) false (sax_init p)
+      (labels (res_config (exec_run fuel pick Async (p_types p) (p_funs p) (init_config p)))) C'.
+Proof.
+  intros Hlin Hnc Hres fuel pick.
+  rewrite <- (exec_trace_exec_run Async (p_types p) (p_funs p) fuel pick (init_config p) []).
+  destruct (exec_trace fuel pick Async (p_types p) (p_funs p) (init_config p) []) as [r tr] eqn:Htr. cbn [fst].
+  apply exec_trace_run in Htr as (es & _ & Hrun).
+  destruct (refines_sax_residue _ _ _ Hres (funs_ok_of_program p Hlin Hnc) (U0 p) es _ (ginv_init p Hlin Hnc) Hrun)
+    as (ls & Hs & Hl).
+  exists (α (res_config r)). rewrite Hl. change (labels (init_config p)) with (@nil string). cbn.
+  eapply sax_steps_perm; [symmetry; apply alpha_init|done].
+Qed.
